@@ -23,13 +23,6 @@ pub assume_specification [<Error as From<FjallError>>::from] (x: FjallError) -> 
 
 // Display for Scru128Id has no precondition (vstd's format! support asks for this)
 pub proof fn axiom_fmt_req_scru() ensures vstd::std_specs::fmt::fmt_req_all::<Scru128Id>() { admit(); }
-// Scru128Id equality is equality of the 128-bit value
-impl vstd::std_specs::cmp::PartialEqSpecImpl for Scru128Id {
-    open spec fn obeys_eq_spec() -> bool { true }
-    open spec fn eq_spec(&self, other: &Scru128Id) -> bool { id_u128(*self) == id_u128(*other) }
-}
-pub assume_specification [<Scru128Id as PartialEq>::eq] (a: &Scru128Id, b: &Scru128Id) -> (r: bool)
-    ensures r == (id_u128(*a) == id_u128(*b));
 
 // ---- ghost model -------------------------------------------------------------------------
 pub enum Part { Stream, IdxTopic, IdxCtx }
